@@ -299,5 +299,27 @@ static inline uint64_t vf_bswap64(uint64_t x) { return __builtin_bswap64(x); }
 static inline uint32_t vf_bswap32(uint32_t x) { return __builtin_bswap32(x); }
 static inline uint16_t vf_bswap16(uint16_t x) { return (uint16_t)((x << 8) | (x >> 8)); }
 static inline double vf_fabs(double x) { return x < 0 ? -x : x; }
+/* opt-in (rt_defs VF_UNTAG=<2^k>, see vf/ir2c.py): tagged-pointer support.  The harness registers the 2^k-aligned objects
+ * whose addresses carry tag bits (vf_untag_register); `inttoptr (and X, -2^k)` is routed through vf_untag, which returns the
+ * registered object whose address equals the masked value -- the equality is asserted (class rt), not assumed. */
+#ifdef VF_UNTAG
+#ifndef VF_UNTAG_MAX
+#define VF_UNTAG_MAX 2
+#endif
+extern uint8_t *vf_untag_obj[VF_UNTAG_MAX];
+extern uint32_t vf_untag_n;
+void vf_untag_register(uint8_t *p);
+static inline void *vf_untag(uint64_t a) {
+  uint8_t *r = vf_untag_obj[0];
+#if VF_UNTAG_MAX > 1
+  if (vf_untag_n > 1 && (uint64_t)vf_untag_obj[1] == a) r = vf_untag_obj[1];
+#endif
+#if VF_UNTAG_MAX > 2
+  if (vf_untag_n > 2 && (uint64_t)vf_untag_obj[2] == a) r = vf_untag_obj[2];
+#endif
+  __CPROVER_assert((uint64_t)r == a, "rt: masked tagged pointer is the address of an object registered with vf_untag_register");
+  return r;
+}
+#endif
 
 #endif
